@@ -86,5 +86,6 @@ class Reader:
         return
 
     def step_over(self, ncache, twotondim, ndim):
-        self.offsets["d"] += ncache * twotondim * len(self.variables)
+        for item in self.variables.values():
+            self.offsets[item["type"]] += ncache * twotondim
         self.offsets["n"] += twotondim * len(self.variables)
